@@ -155,6 +155,30 @@ FOURTH ROUND: the engine index code (each again an explicit rule)
   ranges       range(..) as a value / list(range(..)) -> the list it enumerates; range(a, b, s) with s a local declared
                > 0;  a Python local named like a Coq keyword (`end`) is the binder py_end.
 
+FIFTH ROUND: rules added after the false-alarm campaign (behaviour-preserving refactorings must re-prove)
+
+  helpers      `f(args)` where f is a module-level function of the same file that is NOT a declared target (a helper
+               extracted from a target): translated on the fly with the parameter types of the call site as an
+               auxiliary definition src_h_<f> (positional arguments only, no defaults / decorators / recursion); the
+               equivalence proofs unfold these (Hint Unfold .. : src_helpers).  A statement-range fragment may consist
+               of the single assignment `X = helper(..)`.
+  locators     the fragment locators are structural, not by local name: they find the statements by what they compute
+               (`.take(.., mode='wrap')`, `dict.fromkeys(list(string))`, the lists handed to _update_state, the lists
+               between which the time loop alternates, ...) and rename the locals they return / the free locals.
+  control      `if c: continue` (no else) followed by REST in a loop body  ==  `if not c: REST`;
+               bare `return` in a method that writes the object leaves the object as it is;
+               `if A and B:` / `if A or B:` where B can raise: the short-circuit is made explicit (nested ifs);
+               `if key in self.D: return self.D[key]` followed by REST  ==  the table idiom with REST as the
+               `not in` branch (REST must return on every path);
+               a loop over a literal tuple of int constants whose body returns is unrolled.
+  expressions  `not x` on an int (x == 0);  | and & on ints (Z.lor, Z.land), `x |= e`;
+               builtin any([..]) / any(.. for ..) over a boolean comprehension (existsb);
+               sum(1 for v in l if c) and sum(c for v in l) with c boolean (the number of elements that satisfy c);
+               ''.join(map(str, bits));  [int(d) for d in bin(num)[2:]] (the model's bin_digits);
+               np.base_repr(rule, base=k) and .zfill(w) as separate steps;
+               binary_rule(n, R, scheme='nks') outside C07 (the model's nks_rule n R);
+               `not isinstance(..)` on the tagged rule argument.
+
 The parameter types of each target (which name is the 3x3 block, which the cell index, ...) are declared in TARGETS
 below: they are assumptions about how the library calls the function, not read from the source.
 
@@ -326,40 +350,71 @@ def _assign_to(stmts, name):
     return hits[0].value
 
 
+import copy
+
+
+def _rename(node, mapping):
+    """a copy of the AST node with local names renamed (the fragment targets declare fixed names for their free locals)"""
+    node = copy.deepcopy(node)
+    for n in ast.walk(node):
+        if isinstance(n, ast.Name) and n.id in mapping:
+            n.id = mapping[n.id]
+    return node
+
+
+def _c16_symbols_name(fn):
+    hits = [s for s in _body(fn) if isinstance(s, ast.Assign) and len(s.targets) == 1
+            and isinstance(s.targets[0], ast.Name) and ast.unparse(s.value) == 'dict.fromkeys(list(string))']
+    if len(hits) != 1:
+        raise TranslationError('not exactly one assignment `X = dict.fromkeys(list(string))`')
+    return hits[0]
+
+
 def _c16_symbols(fn):
-    return _assign_to(_body(fn), 'symbols')
+    return _c16_symbols_name(fn).value
 
 
 def _c16_count(fn):
-    v = _assign_to(_body(fn), 'symbol_probabilities')
-    # [float(<count>) / len(string) for symbol in symbols]
-    if not (isinstance(v, ast.ListComp) and len(v.generators) == 1 and not v.generators[0].ifs
-            and ast.unparse(v.generators[0].target) == 'symbol' and ast.unparse(v.generators[0].iter) == 'symbols'
-            and isinstance(v.elt, ast.BinOp) and isinstance(v.elt.op, ast.Div)
-            and ast.unparse(v.elt.right) == 'len(string)' and isinstance(v.elt.left, ast.Call)
-            and ast.unparse(v.elt.left.func) == 'float' and len(v.elt.left.args) == 1):
-        raise TranslationError('symbol_probabilities is not [float(<count>) / len(string) for symbol in symbols]')
-    return v.elt.left.args[0]
+    syms = _c16_symbols_name(fn).targets[0].id
+    for st in _body(fn):
+        v = st.value if isinstance(st, ast.Assign) else None
+        # [float(<count>) / len(string) for <v> in <symbols>]
+        if (isinstance(v, ast.ListComp) and len(v.generators) == 1 and not v.generators[0].ifs
+                and isinstance(v.generators[0].target, ast.Name) and ast.unparse(v.generators[0].iter) == syms
+                and isinstance(v.elt, ast.BinOp) and isinstance(v.elt.op, ast.Div)
+                and ast.unparse(v.elt.right) == 'len(string)' and isinstance(v.elt.left, ast.Call)
+                and ast.unparse(v.elt.left.func) == 'float' and len(v.elt.left.args) == 1):
+            return _rename(v.elt.left.args[0], {v.generators[0].target.id: 'symbol'})
+    raise TranslationError('no assignment [float(<count>) / len(string) for v in <symbols>] was found')
 
 
 def _c16_indicator(fn):
     b = _body(fn)
-    if ast.unparse(_assign_to(b, 'X')) != 'list(stringX)' or ast.unparse(_assign_to(b, 'Y')) != 'list(stringY)':
-        raise TranslationError('X, Y are not list(stringX), list(stringY)')
+    lx = [s for s in b if isinstance(s, ast.Assign) and ast.unparse(s.value) == 'list(stringX)']
+    ly = [s for s in b if isinstance(s, ast.Assign) and ast.unparse(s.value) == 'list(stringY)']
+    if len(lx) != 1 or len(ly) != 1:
+        raise TranslationError('the assignments list(stringX) / list(stringY) were not found')
+    X, Y = ast.unparse(lx[0].targets[0]), ast.unparse(ly[0].targets[0])
     loops = [s for s in b if isinstance(s, ast.For)]
-    # for x in set(X): for y in set(Y): joint_symbol_probabilities.append(np.mean(<indicator list>))
-    ok = (len(loops) == 1 and ast.unparse(loops[0].target) == 'x' and ast.unparse(loops[0].iter) == 'set(X)'
+    ok = (len(loops) == 1 and isinstance(loops[0].target, ast.Name) and ast.unparse(loops[0].iter) == 'set(%s)' % X
           and len(loops[0].body) == 1 and isinstance(loops[0].body[0], ast.For)
-          and ast.unparse(loops[0].body[0].target) == 'y' and ast.unparse(loops[0].body[0].iter) == 'set(Y)'
-          and len(loops[0].body[0].body) == 1)
-    if ok:
-        st = loops[0].body[0].body[0]
-        ok = (isinstance(st, ast.Expr) and isinstance(st.value, ast.Call) and ast.unparse(st.value.func).endswith('.append')
-              and len(st.value.args) == 1 and isinstance(st.value.args[0], ast.Call)
-              and ast.unparse(st.value.args[0].func) == 'np.mean' and len(st.value.args[0].args) == 1)
+          and isinstance(loops[0].body[0].target, ast.Name) and ast.unparse(loops[0].body[0].iter) == 'set(%s)' % Y)
     if not ok:
-        raise TranslationError('the double loop over set(X) x set(Y) appending np.mean(<indicator list>) was not found')
-    return loops[0].body[0].body[0].value.args[0].args[0]
+        raise TranslationError('the double loop over set(X) x set(Y) was not found')
+    x, y = loops[0].target.id, loops[0].body[0].target.id
+    inner = loops[0].body[0].body
+    means = [n for st in inner for n in ast.walk(st) if isinstance(n, ast.Call) and ast.unparse(n.func) == 'np.mean']
+    if len(means) != 1 or len(means[0].args) != 1:
+        raise TranslationError('the inner loop does not contain exactly one np.mean(<indicator list>)')
+    arg = means[0].args[0]
+    if isinstance(arg, ast.Name):
+        defs = [st for st in inner if isinstance(st, ast.Assign) and ast.unparse(st.targets[0]) == arg.id]
+        if len(defs) != 1 or inner.index(defs[0]) != 0:
+            raise TranslationError('the argument of np.mean is not the list built just before')
+        arg = defs[0].value
+    if not isinstance(arg, ast.ListComp):
+        raise TranslationError('the argument of np.mean is not a list comprehension')
+    return _rename(arg, {X: 'X', Y: 'Y', x: 'x', y: 'y'})
 
 
 def _c16_ami_parts(fn):
@@ -379,10 +434,36 @@ def _c16_ami_parts(fn):
     loops = [s_ for s_ in b[2:] if isinstance(s_, ast.For)]
     if len(loops) != 1:
         raise TranslationError('not exactly one loop after the guard')
-    mi = _assign_to(loops[0].body, 'mi')
-    if not (isinstance(mi, ast.Call) and ast.unparse(mi.func) == 'mutual_information' and len(mi.args) == 2):
-        raise TranslationError('mi is not mutual_information(<left>, <right>)')
-    return g.test.operand, mi.args[0], mi.args[1]
+    body = loops[0].body
+    calls = [n for st in body for n in ast.walk(st)
+             if isinstance(n, ast.Call) and ast.unparse(n.func) == 'mutual_information']
+    if len(calls) != 1 or len(calls[0].args) != 2:
+        raise TranslationError('the loop does not contain exactly one mutual_information(<left>, <right>)')
+    args = list(calls[0].args)
+    # an argument that is a local: the expression it was bound to in the loop body (plain or tuple assignment)
+    for k_, a in enumerate(args):
+        if isinstance(a, ast.Name):
+            found = None
+            for st in body:
+                if isinstance(st, ast.Assign) and len(st.targets) == 1:
+                    tg = st.targets[0]
+                    if isinstance(tg, ast.Name) and tg.id == a.id:
+                        found = st.value
+                    if isinstance(tg, ast.Tuple) and isinstance(st.value, ast.Tuple) and len(tg.elts) == len(st.value.elts):
+                        for t_, v_ in zip(tg.elts, st.value.elts):
+                            if isinstance(t_, ast.Name) and t_.id == a.id:
+                                found = v_
+            if found is None:
+                raise TranslationError('the argument %s of mutual_information is not bound in the loop body' % a.id)
+            args[k_] = found
+    out = []
+    for a in args:
+        if not (isinstance(a, ast.Subscript) and isinstance(a.slice, ast.Slice) and isinstance(a.value, ast.Name)):
+            raise TranslationError('an argument of mutual_information is not a slice of the series of the cell')
+        out.append(_rename(a, {a.value.id: 'cell_states_over_time'}))
+    if ast.unparse(args[0].value) != ast.unparse(args[1].value):
+        raise TranslationError('the two arguments of mutual_information slice different series')
+    return g.test.operand, out[0], out[1]
 
 
 def _c16_ami_guard(fn):
@@ -411,22 +492,31 @@ def _c16_ami_right(fn):
 
 
 def _c02_mask_stmts(fn):
+    """von_neumann_mask = np.zeros(..) + the loop that fills it; or the single assignment
+    von_neumann_mask = <helper>(r) when the construction was extracted into a module-level function"""
     b = _body(fn)
-    # von_neumann_mask = np.zeros(..., dtype=bool) followed by the loop that fills it
+
+    def untouched_elsewhere(keep):
+        for j, other in enumerate(b):
+            if j not in keep:
+                for n in ast.walk(other):
+                    if isinstance(n, ast.Name) and n.id == 'von_neumann_mask' and isinstance(n.ctx, ast.Store):
+                        raise TranslationError('von_neumann_mask is re-bound outside the statement range')
     for i, st in enumerate(b):
         if isinstance(st, ast.Assign) and ast.unparse(st.targets[0]) == 'von_neumann_mask':
             if i + 1 < len(b) and isinstance(b[i + 1], ast.For) and 'von_neumann_mask' in ast.unparse(b[i + 1].iter):
-                # nothing else in the function writes the mask
-                for j, other in enumerate(b):
-                    if j not in (i, i + 1):
-                        for n in ast.walk(other):
-                            if isinstance(n, ast.Name) and n.id == 'von_neumann_mask' and isinstance(n.ctx, ast.Store):
-                                raise TranslationError('von_neumann_mask is re-bound outside the statement range')
+                untouched_elsewhere((i, i + 1))
                 return [st, b[i + 1]]
-    raise TranslationError('the construction of von_neumann_mask (np.zeros + loop) was not found')
+            if isinstance(st.value, ast.Call) and isinstance(st.value.func, ast.Name) \
+                    and [ast.unparse(a) for a in st.value.args] == ['r'] and not st.value.keywords:
+                untouched_elsewhere((i,))
+                return [st]
+    raise TranslationError('the construction of von_neumann_mask (np.zeros + loop, or a helper called with r) was not found')
 
 
 def _c02_axis_stmts(fn):
+    """the body of `for row in range(rows): for col in range(cols):` up to the final store
+    <dict>[(row, col)] = (A, B); returns (A, B), whatever they are called"""
     b = _body(fn)
     if [a.arg for a in fn.args.args] != ['rows', 'cols', 'r']:
         raise TranslationError('parameters are not (rows, cols, r)')
@@ -437,65 +527,110 @@ def _c02_axis_stmts(fn):
     if not ok:
         raise TranslationError('the double loop `for row in range(rows): for col in range(cols):` was not found')
     inner = loops[0].body[0].body
-    if not (len(inner) >= 2 and ast.unparse(inner[-1]) == 'indices[row, col] = (row_indices, col_indices)'):
-        raise TranslationError('the loop body does not end with indices[row, col] = (row_indices, col_indices)')
-    return inner[:-1]
+    last = inner[-1] if inner else None
+    if not (len(inner) >= 2 and isinstance(last, ast.Assign) and len(last.targets) == 1
+            and isinstance(last.targets[0], ast.Subscript) and isinstance(last.targets[0].value, ast.Name)
+            and ast.unparse(last.targets[0].slice) == '(row, col)'
+            and isinstance(last.value, ast.Tuple) and len(last.value.elts) == 2
+            and all(isinstance(x, ast.Name) for x in last.value.elts)):
+        raise TranslationError('the loop body does not end with <dict>[(row, col)] = (<row indices>, <col indices>)')
+    return inner[:-1], [x.id for x in last.value.elts]
 
 
 def _c10_block_stmts(fn):
+    """from `X = list(range(len(initial_conditions)))` to the later of the two assignments of the index lists between
+    which the time loop alternates (`S = E if t % 2 == 0 else O`, or the same as an if/else); returns (O, E)"""
     b = _body(fn)
+    first = [i for i, st in enumerate(b) if isinstance(st, ast.Assign)
+             and ast.unparse(st.value) == 'list(range(len(initial_conditions)))']
+    loops = [st for st in b if isinstance(st, ast.For) and ast.unparse(st.iter) == 'range(1, timesteps)']
+    if len(first) != 1 or len(loops) != 1:
+        raise TranslationError('`X = list(range(len(initial_conditions)))` / the loop over range(1, timesteps) not found')
+    even = odd = None
+    for st in loops[0].body:
+        if isinstance(st, ast.Assign) and isinstance(st.value, ast.IfExp) and ast.unparse(st.value.test) == 't % 2 == 0' \
+                and isinstance(st.value.body, ast.Name) and isinstance(st.value.orelse, ast.Name):
+            even, odd = st.value.body.id, st.value.orelse.id
+        if isinstance(st, ast.If) and ast.unparse(st.test) == 't % 2 == 0' and len(st.body) == 1 and len(st.orelse) == 1 \
+                and isinstance(st.body[0], ast.Assign) and isinstance(st.orelse[0], ast.Assign) \
+                and ast.unparse(st.body[0].targets[0]) == ast.unparse(st.orelse[0].targets[0]) \
+                and isinstance(st.body[0].value, ast.Name) and isinstance(st.orelse[0].value, ast.Name):
+            even, odd = st.body[0].value.id, st.orelse[0].value.id
+    if even is None:
+        raise TranslationError('the alternation `E if t % 2 == 0 else O` was not found in the time loop')
+
     def is_assign(st, name):
         return isinstance(st, ast.Assign) and len(st.targets) == 1 and ast.unparse(st.targets[0]) == name
-    first = [i for i, st in enumerate(b) if is_assign(st, 'cell_indices')]
-    last = [i for i, st in enumerate(b) if is_assign(st, 'block_indices_even')]
-    odd = [i for i, st in enumerate(b) if is_assign(st, 'block_indices_odd')]
-    if first and len(last) == 1 and len(odd) == 1 and first[0] < odd[0] < last[0]:
-        i, j = first[0], last[0]
-        for k, other in enumerate(b):
-            if not i <= k <= j:
-                for n in ast.walk(other):
-                    if isinstance(n, ast.Name) and n.id in ('block_indices_odd', 'block_indices_even', 'block_size') \
-                            and isinstance(n.ctx, ast.Store):
-                        raise TranslationError('%s is re-bound outside the statement range' % n.id)
-        return b[i:j + 1]
-    raise TranslationError('the statements from the first cell_indices = .. to block_indices_even = .. were not found')
+    ie = [i for i, st in enumerate(b) if is_assign(st, even)]
+    io = [i for i, st in enumerate(b) if is_assign(st, odd)]
+    if len(ie) != 1 or len(io) != 1 or min(ie[0], io[0]) < first[0]:
+        raise TranslationError('%s / %s are not assigned exactly once after the index list' % (odd, even))
+    i, j = first[0], max(ie[0], io[0])
+    if not all(isinstance(st, ast.Assign) for st in b[i:j + 1]):
+        raise TranslationError('the statement range is not a sequence of assignments')
+    for k, other in enumerate(b):
+        if not i <= k <= j:
+            for n in ast.walk(other):
+                if isinstance(n, ast.Name) and n.id in (even, odd, 'block_size') and isinstance(n.ctx, ast.Store):
+                    raise TranslationError('%s is re-bound outside the statement range' % n.id)
+    return b[i:j + 1], [odd, even]
 
 
 def _c03_key_stmts(fn):
+    """the leading assignments of _update_state up to `X = curr_state.take(.., mode='wrap')`; returns (whatever they
+    are called) the local bound to indices[0] and X"""
     b = _body(fn)
-    if [a.arg for a in fn.args.args][:2] != ['indices', 'curr_state'] or 'r' not in [a.arg for a in fn.args.args]:
+    params = [a.arg for a in fn.args.args]
+    if params[:2] != ['indices', 'curr_state'] or 'r' not in params:
         raise TranslationError('parameters are not (indices, curr_state, .., r, ..)')
-    idx = [i for i, st in enumerate(b) if isinstance(st, ast.Assign) and ast.unparse(st.targets[0]) == 'neighbourhood']
+    idx = [i for i, st in enumerate(b) if isinstance(st, ast.Assign) and isinstance(st.value, ast.Call)
+           and isinstance(st.value.func, ast.Attribute) and st.value.func.attr == 'take'
+           and len(st.targets) == 1 and isinstance(st.targets[0], ast.Name)]
     if len(idx) != 1:
-        raise TranslationError('not exactly one assignment to neighbourhood')
+        raise TranslationError('not exactly one assignment `X = <array>.take(..)`')
     seg = b[:idx[0] + 1]
-    if not all(isinstance(st, ast.Assign) for st in seg):
-        raise TranslationError('the statements before `neighbourhood = ..` are not plain assignments')
+    if not all(isinstance(st, ast.Assign) and len(st.targets) == 1 and isinstance(st.targets[0], ast.Name) for st in seg):
+        raise TranslationError('the statements before the take are not plain assignments')
+    firsts = [st.targets[0].id for st in seg if ast.unparse(st.value) == 'indices[0]']
+    if len(firsts) != 1:
+        raise TranslationError('not exactly one local bound to indices[0]')
+    names = (firsts[0], seg[-1].targets[0].id)
     for other in b[idx[0] + 1:]:
         for n in ast.walk(other):
-            if isinstance(n, ast.Name) and n.id in ('neighbourhood', 'start') and isinstance(n.ctx, ast.Store):
+            if isinstance(n, ast.Name) and n.id in names and isinstance(n.ctx, ast.Store):
                 raise TranslationError('%s is re-bound after the statement range' % n.id)
-    return seg
+    return seg, list(names)
 
 
 def _c03_split_stmts(fn):
+    """the leading assignments of _step and the two index lists handed to _update_state: two locals (whatever they
+    are called), or the two elements of the tuple a `for h in (A, B): .. _update_state(h, ..)` loop runs over"""
     b = _body(fn)
     if [a.arg for a in fn.args.args][:1] != ['indices']:
         raise TranslationError('the first parameter is not indices')
     seg = []
     for st in b:
-        if isinstance(st, ast.Assign):
+        if isinstance(st, ast.Assign) and len(st.targets) == 1 and isinstance(st.targets[0], ast.Name):
             seg.append(st)
         else:
             break
-    names = [ast.unparse(st.targets[0]) for st in seg]
-    if 'left_indices' not in names or 'right_indices' not in names:
-        raise TranslationError('left_indices / right_indices are not assigned at the top of _step')
-    # what follows must hand exactly these two lists to _update_state
-    rest = ast.unparse(ast.Module(body=b[len(seg):], type_ignores=[]))
-    if '_update_state(left_indices,' not in rest or '_update_state(right_indices,' not in rest:
-        raise TranslationError('the two halves are not passed to _update_state')
-    return seg
+    rest = b[len(seg):]
+    calls = [n for st in rest for n in ast.walk(st)
+             if isinstance(n, ast.Call) and isinstance(n.func, ast.Name) and n.func.id == '_update_state' and n.args]
+    firsts = [ast.unparse(c.args[0]) for c in calls]
+    assigned = [st.targets[0].id for st in seg]
+    if len(calls) == 2 and all(f in assigned for f in firsts) and firsts[0] != firsts[1]:
+        return seg, firsts
+    if len(calls) == 1 and len(rest) == 1 and isinstance(rest[0], ast.For) and isinstance(rest[0].target, ast.Name) \
+            and rest[0].target.id == firsts[0] and isinstance(rest[0].iter, ast.Tuple) and len(rest[0].iter.elts) == 2:
+        extra = []
+        for nm, el in zip(('left_half_', 'right_half_'), rest[0].iter.elts):
+            a = ast.Assign(targets=[ast.Name(id=nm, ctx=ast.Store())], value=el)
+            ast.copy_location(a, rest[0]); ast.copy_location(a.targets[0], rest[0])
+            a.end_lineno = rest[0].end_lineno
+            extra.append(a)
+        return seg + extra, ['left_half_', 'right_half_']
+    raise TranslationError('the two halves handed to _update_state were not found')
 
 
 _SYMG = '{A : Type} (sym_dec : forall a b : A, {a = b} + {a <> b})'
@@ -1532,7 +1667,8 @@ class FunTrans:
             # a module-level function of the same file that is NOT a declared target (a helper extracted from a
             # target): translated on the fly with the parameter types of this call site, as an auxiliary definition
             # src_h_<name>; positional arguments only, no defaults, no decorators, no recursion; fail-closed as usual
-            if callee is None and f.id not in env.vars:
+            if callee is None and f.id not in env.vars and not (
+                    f.id in ('nks_rule', 'binary_rule') and self.t['prop'] != 'C07'):
                 helper = [n for n in self.mod.tree.body if isinstance(n, ast.FunctionDef) and n.name == f.id]
                 if len(helper) == 1 and not e.keywords:
                     return self.inline_helper(e, helper[0], env)
@@ -1569,6 +1705,52 @@ class FunTrans:
             if ta == Z:
                 return a, Z          # int() of an integer value (values are Z)
             _err(e, 'int(..) of a value of type %s' % ta)
+        # builtin any([..]) / any(.. for ..) over a boolean comprehension: existsb (like np.any([..]))
+        if isinstance(f, ast.Name) and f.id == 'any' and 'any' not in env.vars and len(e.args) == 1 and not e.keywords \
+                and isinstance(e.args[0], (ast.ListComp, ast.GeneratorExp)) and len(e.args[0].generators) == 1 \
+                and not e.args[0].generators[0].ifs:
+            g = e.args[0].generators[0]
+            lst, ety, nonneg = self.iter_source(g.iter, env)
+            pat, newvars, nn = self.bind_pattern(g.target, ety, env, nonneg)
+            inner = env.copy()
+            inner.vars.update(newvars)
+            inner.noeffect = 1
+            b, tb = self.expr(e.args[0].elt, inner)
+            if tb != BOOL:
+                _err(e, 'any(..) over non-boolean elements')
+            return '(existsb (fun %s => %s) %s)' % (pat, b, lst), BOOL
+        # sum(c for v in l) with c boolean: the number of elements that satisfy c
+        if isinstance(f, ast.Name) and f.id == 'sum' and 'sum' not in env.vars and len(e.args) == 1 and not e.keywords \
+                and isinstance(e.args[0], (ast.ListComp, ast.GeneratorExp)) and len(e.args[0].generators) == 1 \
+                and not e.args[0].generators[0].ifs and not _is_int_const(e.args[0].elt):
+            g = e.args[0].generators[0]
+            lst, ety, nonneg = self.iter_source(g.iter, env)
+            pat, newvars, nn = self.bind_pattern(g.target, ety, env, nonneg)
+            inner = env.copy()
+            inner.vars.update(newvars)
+            inner.noeffect = 1
+            b, tb = self.expr(e.args[0].elt, inner)
+            if tb != BOOL:
+                _err(e, 'sum(..) over elements that are not booleans (or the constant 1)')
+            return '(Z.of_nat (length (filter (fun %s => %s) %s)))' % (pat, b, lst), Z
+        # sum(1 for v in l if c): the number of elements that satisfy c (= len([1 for v in l if c]))
+        if isinstance(f, ast.Name) and f.id == 'sum' and len(e.args) == 1 and not e.keywords \
+                and isinstance(e.args[0], ast.GeneratorExp) and _is_int_const(e.args[0].elt) and e.args[0].elt.value == 1:
+            lc = ast.ListComp(elt=e.args[0].elt, generators=e.args[0].generators)
+            ast.copy_location(lc, e.args[0])
+            l, tl = self.expr(lc, env)
+            return '(Z.of_nat (length %s))' % l, Z
+        # ''.join(map(str, bits)): the same string as ''.join([str(x) for x in bits])
+        if isinstance(f, ast.Attribute) and f.attr == 'join' and isinstance(f.value, ast.Constant) and f.value.value == '' \
+                and len(e.args) == 1 and isinstance(e.args[0], ast.Call) and isinstance(e.args[0].func, ast.Name) \
+                and e.args[0].func.id == 'map' and len(e.args[0].args) == 2 and not e.args[0].keywords \
+                and isinstance(e.args[0].args[0], ast.Name) and e.args[0].args[0].id == 'str':
+            l, tl = self.expr(e.args[0].args[1], env)
+            if tl == 'list:bitint':
+                return l, BITS
+            if tl == 'emptylist':
+                return '(@nil bool)', BITS
+            _err(e, "''.join(map(str, ..)) of a value of type %s" % tl)
         # ''.join([str(x) for x in bits]): the binary string of a list of 0/1 ints
         if isinstance(f, ast.Attribute) and f.attr == 'join' and isinstance(f.value, ast.Constant) and f.value.value == '' \
                 and len(e.args) == 1 and isinstance(e.args[0], ast.ListComp) and len(e.args[0].generators) == 1:
@@ -1816,6 +1998,22 @@ class FunTrans:
                         and env.vars.get(X) in (ZLIST, ZVEC) and env.vars.get(W) == Z and self.mod.imports_numpy_as_np:
                     r = self.bind(env, s, 'src_as_strided_windows %s %s' % (X, W))
                     return self.wrap_binds(env, self.ret(GRID2, r))
+        # the dictionary idiom in its positive form: `if key in self.D: return self.D[key]` followed by REST is
+        # `if key not in self.D: REST` / `return self.D[key]` provided REST returns or raises on every path (checked:
+        # a REST that can fall through is rejected by the idiom)
+        if isinstance(s, ast.If) and not s.orelse and len(s.body) == 1 and isinstance(s.body[0], ast.Return) and rest \
+                and isinstance(s.test, ast.Compare) and len(s.test.ops) == 1 and isinstance(s.test.ops[0], ast.In) \
+                and isinstance(s.test.left, ast.Name) and _is_self_attr(s.test.comparators[0]) \
+                and self.attr_info.get(s.test.comparators[0].attr) == DICT5:
+            r = s.body[0].value
+            if isinstance(r, ast.Subscript) and _is_self_attr(r.value, s.test.comparators[0].attr) \
+                    and isinstance(r.slice, ast.Name) and r.slice.id == s.test.left.id:
+                neg = ast.If(test=ast.Compare(left=s.test.left, ops=[ast.NotIn()], comparators=s.test.comparators),
+                             body=list(rest), orelse=[])
+                ast.copy_location(neg, s)
+                ast.copy_location(neg.test, s.test)
+                neg.end_lineno = rest[-1].end_lineno
+                return self.block([neg, s.body[0]], env, k)
         # the dictionary idiom (last two statements)
         if self.is_dict_idiom(s, rest):
             return self.dict_idiom(s, rest[0], env)
@@ -1957,6 +2155,8 @@ class FunTrans:
         if isinstance(s, ast.Return):
             if rest:
                 _err(rest[0], 'statements after a return')
+            if s.value is None and self.grp:
+                return self.ret('void', 'st')       # bare `return` in a method: it leaves the object as it is now
             if s.value is None or (isinstance(s.value, ast.Constant) and s.value.value is None):
                 return self.ret('none', 'None')
             tx, ty = self.expr(s.value, env)
@@ -2034,7 +2234,28 @@ class FunTrans:
                 a = self.block(s.body, a_env, cont)
                 b = self.block(s.orelse, b_env, cont)
                 return '(match %s with\n| %s => %s\n| %s => %s\nend)' % (name, pos[0], a, neg[0], b)
-            return self.if_stmt(s, env, cont)
+            try:
+                mark = (len(self.rets), self.fresh, self.nbinds)
+                return self.if_stmt(s, env, cont)
+            except TranslationError as ex:
+                # `if A and B:` / `if A or B:` where B can raise: the short-circuit is made explicit
+                #   if A and B: S1 else: S2   ==   if A: (if B: S1 else: S2) else: S2      (or: dually)
+                if 'that can raise inside a short-circuit position' not in str(ex) or not self.mode_effects_ok \
+                        or not (isinstance(s.test, ast.BoolOp) and len(s.test.values) >= 2):
+                    raise
+                del self.rets[mark[0]:]
+                env.binds = []
+                first = s.test.values[0]
+                restv = s.test.values[1] if len(s.test.values) == 2 else ast.BoolOp(op=s.test.op, values=s.test.values[1:])
+                ast.copy_location(restv, s.test)
+                inner = ast.If(test=restv, body=s.body, orelse=s.orelse)
+                ast.copy_location(inner, s)
+                if isinstance(s.test.op, ast.And):
+                    outer = ast.If(test=first, body=[inner], orelse=s.orelse)
+                else:
+                    outer = ast.If(test=first, body=s.body, orelse=[inner])
+                ast.copy_location(outer, s)
+                return self.block([outer] + list(rest), env, k)
         if isinstance(s, ast.For):
             return self.for_stmt(s, env, cont)
         _err(s, 'statement %s is outside the subset' % type(s).__name__)
@@ -2164,6 +2385,25 @@ class FunTrans:
             r_env.toplevel = False
             val = self.block([b[0].body[0]], r_env, None)
             return '(if existsb (fun %s => %s) self%s\nthen %s\nelse %s)' % (x, tst, s.iter.attr, val, cont(env))
+        # a loop over a literal tuple / list of int constants whose body returns: unrolled (the loop variable is
+        # replaced by each constant in turn; it must not be assigned, and no break / continue)
+        if isinstance(s.iter, (ast.Tuple, ast.List)) and s.iter.elts and all(_is_int_const(x) for x in s.iter.elts) \
+                and isinstance(s.target, ast.Name) and _contains(s.body, (ast.Return,)) \
+                and not _contains(s.body, (ast.Break, ast.Continue)) \
+                and s.target.id not in _assigned(s.body) and s.target.id not in env.vars:
+            import copy as _copy
+            unrolled = []
+            for c in s.iter.elts:
+                for st in s.body:
+                    st2 = _copy.deepcopy(st)
+
+                    class Sub(ast.NodeTransformer):
+                        def visit_Name(self_, node):
+                            if node.id == s.target.id and isinstance(node.ctx, ast.Load):
+                                return ast.copy_location(ast.Constant(value=c.value), node)
+                            return node
+                    unrolled.append(Sub().visit(st2))
+            return self.block(unrolled, env, cont)
         return self.fold_loop(s, env, cont)
         _err(s, 'unreachable')
 
@@ -2588,12 +2828,20 @@ def _find_function(mod, target):
     return None, fn
 
 
+_CUR_MOD = None
+
+
 def translate_stmt_fragment(mod, target):
     """a STATEMENT RANGE inside a function, as a function of its declared free locals returning the named locals.
     target['locate_stmts'](fn) returns the list of statements (consecutive statements of one block) after checking
     the shape around them; target['returns'] names the locals whose values after the range are the result."""
     _, fn = _find_function(mod, target)
+    global _CUR_MOD
+    _CUR_MOD = mod
     stmts = target['locate_stmts'](fn)
+    returns = target['returns']
+    if isinstance(stmts, tuple):
+        stmts, returns = stmts          # the locator named the locals to return (they may be called anything)
     ft = FunTrans(mod, target, None, {}, {})
     ft.mode_effects_ok = target.get('effects', False)
     env = Env(ft)
@@ -2612,7 +2860,7 @@ def translate_stmt_fragment(mod, target):
 
     def k(env2):
         outs = []
-        for nm in target['returns']:
+        for nm in returns:
             if nm not in env2.vars:
                 raise TranslationError('local %s is not defined at the end of the statement range' % nm)
             outs.append((env2.alias.get(nm, nm), env2.vars[nm]))
